@@ -8,24 +8,35 @@ MANIFEST = {
             "lock, head insertion, failing malloc) refines a finite map for every op sequence and every handle set, colliding "
             "buckets included, and no 'get()/unmap() must succeed' assertion fires (C14_lookup, C14_hash_index); the five-way "
             "association functions of abti_unit.h keep table, (unit,pool) fields and the create_unit/free_unit log consistent: "
-            "each handle created once per life, freed once by its pool, never mentioned after its free, live handles = units of "
-            "work units associated with user pools (C14_create_free_balanced, C14_all_freed, C14_get_thread), extended to the "
-            "public API with push/pop log entries, seeded pop policies and yield/migrate bodies (C14_api_balanced, "
-            "C14_pop_translates); a failed create_unit/map leaves table and fields unchanged in ANY state (C14_failure_atomic); "
-            "LTS with one step per shared access, any number of threads: a lock-free get overlapping maps/unmaps of other units "
-            "returns the right work unit and no assertion can fire (C14_concurrent_lookup, C14_concurrent_no_assert). "
-            "Tie: models extracted to OCaml and compared on every run with (W) an ASan/UBSan white-box copy of unit.c + the "
+            "each handle created once per association, freed once by its pool, never mentioned after its free, live handles = "
+            "units of work units associated with user pools (C14_create_free_balanced, C14_all_freed, C14_get_thread), extended "
+            "to the public API with push/pop log entries, seeded pop policies and yield/migrate bodies (C14_api_balanced, "
+            "C14_pop_translates); same-handle moves - a work unit moved directly between two user pools whose create_unit "
+            "return the handle it already has (unit = (ABT_unit)thread) - are inside the contract: map(u) while u is mapped "
+            "then unmap(u) leaves the table representing what it represented, lookups of u give the work unit in between, the "
+            "log gains one create_unit (new pool) and one free_unit (old pool), the bucket ends with exactly one cell for u "
+            "(C14_same_handle_remap, C14_same_handle_move); a failed create_unit/map leaves table and fields unchanged in ANY "
+            "state (C14_failure_atomic); LTS with one step per shared access, any number of threads: a lock-free get "
+            "overlapping maps/unmaps of other units returns the right work unit and no assertion can fire "
+            "(C14_concurrent_lookup, C14_concurrent_no_assert). "
+            "Tie: models extracted to OCaml and compared on every run with (T, W) an ASan/UBSan white-box copy of unit.c + the "
             "inline functions of abti_unit.h with malloc-failure injection and (A) the -O2 library through the public API "
-            "(built-in, ABT_pool_user_def and legacy ABT_pool_def pools, handles from a PROT_NONE arena chosen to collide), "
-            "results + call log as observables and the bucket chains as white-box dump; multi-stream create/migrate/free "
-            "storms with a lookup-checker thread as monitors.",
+            "(built-in, ABT_pool_user_def and legacy ABT_pool_def pools, handles from a PROT_NONE arena chosen to collide; "
+            "about a third of the A cases use one fixed handle per work unit in every pool), results + call log as observables "
+            "and the bucket chains as white-box dump; multi-stream create/migrate/free storms with a lookup-checker thread "
+            "(half of the migrations keep the handle) as monitors.",
     "note": "Trusted: Coq kernel, extraction (ExtrOcamlBasic), the hand-written Gallina models (validated by the differential "
             "harness, not verified against the C text), gcc/glibc. Preconditions made explicit: user handles have bit 0 clear "
-            "(hence differ from ABT_UNIT_NULL = 0x7 in this configuration) and are distinct among live units; usage contract of "
-            "the API ops (no re-association of a work unit that sits in a pool). The LTS assumes sequential consistency and "
-            "that p_next is written once before publication (the release/acquire pair on the bucket head is not checked); it "
-            "is tied to the code only by the storm monitors (no hooks). ABT_pool_push_threads (batch; documented FIXME: not "
-            "failure-atomic across the batch), pop_wait/pop_timedwait wrappers and the print_all wrappers are not modelled.",
+            "(hence differ from ABT_UNIT_NULL = 0x7 in this configuration) and create_unit(pool, th) never returns the handle of "
+            "ANOTHER live work unit (it may return the handle th itself holds, which can only happen in a user->other-user "
+            "move); usage contract of the API ops (no re-association of a work unit that sits in a pool). The call-log "
+            "replay accepts a handle that is live in two pools only between the create_unit of such a move and the free_unit "
+            "of either pool. The LTS assumes sequential consistency, that p_next is written once before publication (the "
+            "release/acquire pair on the bucket head is not checked) and DISTINCT live handles (map(u) starts only when u is "
+            "unmapped): a same-handle move overlapping lock-free lookups is covered by the sequential theorems and the storm "
+            "monitor only, not by the LTS; the LTS is tied to the code only by the storm monitors (no hooks). "
+            "ABT_pool_push_threads (batch; documented FIXME: not failure-atomic across the batch), pop_wait/pop_timedwait "
+            "wrappers and the print_all wrappers are not modelled.",
 }
 
 # ----------------------------------------------------------------- handles
@@ -66,23 +77,35 @@ def gen_t(rng, tier):
     # exhaustive: every valid sequence of length <= maxlen over map(ok)/map(alloc fails)/unmap/get on 3
     # colliding handles
     def rec(seq, mapped, nth):
+        # mapped: dict handle -> thread number it was mapped with
         if seq:
             cases.append("T ; " + " , ".join(seq))
-        if len(seq) == maxlen:
+        if len(seq) >= maxlen:
             return
         for h in hs:
             if h in mapped:
-                rec(seq + ["U %d" % h], mapped - {h}, nth)
+                m2 = dict(mapped)
+                del m2[h]
+                rec(seq + ["U %d" % h], m2, nth)
                 # a get never changes the state: emitted as a last op only
                 cases.append("T ; " + " , ".join(seq + ["G %d" % h]))
+                # same-handle move: map(h) with its own thread while h is mapped (the key is in the bucket
+                # twice), a lookup in between, unmap(h) (clears the first match); one composite step
+                if len(seq) + 3 <= maxlen + 1:
+                    rec(seq + ["M %d %d 1" % (h, mapped[h]), "G %d" % h, "U %d" % h], mapped, nth)
+                # ... with a failing allocation: succeeds only by reusing a tombstone; h stays mapped either way
+                cases.append("T ; " + " , ".join(seq + ["M %d %d 0" % (h, mapped[h]), "G %d" % h]))
             else:
-                rec(seq + ["M %d %d 1" % (h, nth)], mapped | {h}, nth + 1)
+                m2 = dict(mapped)
+                m2[h] = nth
+                rec(seq + ["M %d %d 1" % (h, nth)], m2, nth + 1)
                 # failing allocation: state changes only if a tombstone exists; python does not track that,
                 # so such a sequence ends here
                 cases.append("T ; " + " , ".join(seq + ["M %d %d 0" % (h, nth)]))
-    rec([], frozenset(), 1)
+    rec([], {}, 1)
     nexh = len(cases)
     nrand = 600 if tier == "quick" else 20000
+    nremap = 0
     for _ in range(nrand):
         nb = rng.choice([1, 1, 2, 3])
         bks = rng.sample(range(256), nb)
@@ -113,16 +136,35 @@ def gen_t(rng, tier):
                 if succ:
                     mapped[h] = nth
                 nth += 1
-            elif r < 0.75:
+            elif r < 0.62:
                 h = rng.choice(list(mapped))
                 bl = buckets[hidx(h)]
                 bl[bl.index(h)] = 0
                 del mapped[h]
                 seq.append("U %d" % h)
+            elif r < 0.78:
+                # same-handle move: map(h, its thread) while h is mapped, [get], unmap(h)
+                h = rng.choice(list(mapped))
+                ok = 0 if rng.random() < 0.2 else 1
+                bl = buckets[hidx(h)]
+                succ = True
+                if 0 in bl:
+                    bl[bl.index(0)] = h
+                elif ok:
+                    bl.insert(0, h)
+                else:
+                    succ = False
+                seq.append("M %d %d %d" % (h, mapped[h], ok))
+                if rng.random() < 0.5:
+                    seq.append("G %d" % h)
+                if succ:
+                    bl[bl.index(h)] = 0      # the first cell with that key
+                    seq.append("U %d" % h)
+                    nremap += 1
             else:
                 seq.append("G %d" % rng.choice(list(mapped)))
         cases.append("T ; " + " , ".join(seq))
-    return cases, {"t_exhaustive_len<=%d" % maxlen: nexh, "t_random": nrand}
+    return cases, {"t_exhaustive_len<=%d" % maxlen: nexh, "t_random": nrand, "t_same_key_remap": nremap}
 
 
 # ----------------------------------------------------------------- association mirror (python)
@@ -205,9 +247,15 @@ class Mirror:
         if cu == 0:
             self.stats['create_null'] = self.stats.get('create_null', 0) + 1
             return False, True
+        if cu == t['unit']:
+            # same-handle move: the key is mapped a second time, then its first cell is cleared
+            self.stats['same_handle_move'] = self.stats.get('same_handle_move', 0) + 1
+            bl = self.buckets.get(hidx(cu), [])
+            if cu in bl and 0 in bl[:bl.index(cu)]:
+                self.stats['same_handle_tombstone_in_front'] = self.stats.get('same_handle_tombstone_in_front', 0) + 1
         if not self._map(cu, ok):
             return False, True
-        self._unmap(t['unit'])
+        self._unmap(t['unit'])      # the first cell with that key
         t['unit'], t['pool'] = cu, p
         return True, True
 
@@ -217,9 +265,15 @@ class Mirror:
             self._unmap(t['unit'])
 
 
-def pick_oracle(rng, m, hl, pnull, extra_live=()):
+def pick_oracle(rng, m, hl, pnull, extra_live=(), th=None, pown=0.0):
+    """value the next create_unit returns: NULL (0), a handle no live unit has, or - with probability pown, when
+    work unit th currently has a user unit - th's own handle (pools whose unit is the work-unit handle itself:
+    a move between two such pools maps and unmaps the same key).  Never the handle of ANOTHER live unit: that
+    is outside the contract (Misuse in the model)."""
     if rng.random() < pnull:
         return 0
+    if th is not None and th in m.thr and m.thr[th]['unit'] != 'b' and rng.random() < pown:
+        return m.thr[th]['unit']
     live = m.live() | set(extra_live)
     free = [h for h in hl if h not in live]
     return rng.choice(free) if free else 0
@@ -244,9 +298,14 @@ def gen_w(rng, tier):
                         for cu, ok in ([(0, 1)] if p == 0 else [(free[0], 1), (free[0], 0), (0, 1)]):
                             ops.append(("I", th, p, cu, ok))
             else:
+                own = m.thr[th]['unit']
                 for k in ("S", "X"):
                     for p in (0, 1, 2):
-                        for cu, ok in ([(free[0], 1), (0, 1)] if p else [(0, 1)]):
+                        orc = [(free[0], 1), (0, 1)] if p else [(0, 1)]
+                        if p and own != 'b' and m.thr[th]['pool'] != p:
+                            # same-handle move (malloc succeeding / failing)
+                            orc += [(own, 1), (own, 0)]
+                        for cu, ok in orc:
                             ops.append((k, th, p, cu, ok))
                 ops.append(("D", th))
                 ops.append(("G", th))
@@ -293,6 +352,8 @@ def gen_w(rng, tier):
         m = Mirror(kinds, stats)
         seq = []
         nextth = 1
+        # probability that a create_unit for a work unit that has a user unit returns that very handle
+        ident_p = rng.choice([0.0, 0.15, 0.15, 0.5, 1.0])
         for _ in range(rng.choice([3, 6, 12, 24, 40])):
             r = rng.random()
             alive = list(m.thr)
@@ -307,7 +368,7 @@ def gen_w(rng, tier):
             elif r < 0.75 and alive:
                 th = rng.choice(alive)
                 p = rng.randrange(npool)
-                cu = pick_oracle(rng, m, hl, 0.1)
+                cu = pick_oracle(rng, m, hl, 0.1, th=th, pown=ident_p)
                 ok = 0 if rng.random() < 0.12 else 1
                 k = rng.choice("SX")
                 m.set(th, p, cu, ok, site='set' if k == 'S' else 'uset')
@@ -403,10 +464,25 @@ def gen_a(rng, tier):
         nextth = 1
         user_pools = [i for i, k in enumerate(kinds) if k != 'B']
 
-        def oracles(n=2):
+        # "identity" cases: every pool hands out one fixed handle per work unit (unit = thread handle), so every
+        # direct move between two user pools is a same-handle move; otherwise it happens with probability 0.12
+        ident = rng.random() < 0.3
+        ident_h = {}
+        if ident:
+            hl = list(dict.fromkeys(hl + bucket_handles(hidx(hl[0]), 40, rng)))
+
+        def oracles(n=2, th=None):
             out = []
             for _ in range(n):
-                o = pick_oracle(rng, m, hl, 0.12, extra_live=out)
+                if ident and th is not None:
+                    if th not in ident_h:
+                        taken = m.live() | set(ident_h.values())
+                        free = [h for h in hl if h not in taken]
+                        ident_h[th] = rng.choice(free) if free else 0
+                    o = 0 if rng.random() < 0.08 else ident_h[th]
+                else:
+                    o = pick_oracle(rng, m, hl, 0.12, extra_live=[x for x in out if x], th=th,
+                                    pown=0.12 if not out else 0.0)
                 out.append(o)
             return out
 
@@ -455,7 +531,7 @@ def gen_a(rng, tier):
                 named = 1 if rng.random() < 0.7 else 0
                 p = rng.randrange(npool) if named else rng.choice(user_pools)
                 sc = rand_script()
-                os = oracles(1)
+                os = oracles(1, th)
                 if m.init(th, p, os[0], 1, site='create'):
                     m.x[th] = {'loc': 'O', 'mig': None, 'named': named, 'script': list(sc)}
                     m.push(th)
@@ -471,7 +547,7 @@ def gen_a(rng, tier):
             elif kind == 'push':
                 th = rng.choice(outs)
                 p = rng.randrange(npool)
-                os = oracles(1)
+                os = oracles(1, th)
                 pk = rng.choice(["pt", "pu"])
                 ok, _ = m.set(th, p, os[0], 1, site=pk)
                 if ok:
@@ -480,7 +556,7 @@ def gen_a(rng, tier):
             elif kind == 'sa':
                 th = rng.choice(outs + terms)
                 p = rng.randrange(npool)
-                os = oracles(1)
+                os = oracles(1, th)
                 m.set(th, p, os[0], 1, site='sa')
                 op = "sa %d %d : %s" % (th, p, fmt(os))
             elif kind == 'mg':
@@ -491,7 +567,7 @@ def gen_a(rng, tier):
                 op = "mg %d %d" % (th, p)
             elif kind == 'run':
                 th = rng.choice(outs)
-                os = oracles(2)
+                os = oracles(2, th)
                 if rng.random() < 0.75:
                     op = "rn %d : %s" % (th, fmt(os))
                     m.schedule(th, list(os))
@@ -514,7 +590,7 @@ def gen_a(rng, tier):
                 th = rng.choice(terms)
                 p = rng.randrange(npool)
                 sc = rand_script()
-                os = oracles(1)
+                os = oracles(1, th)
                 ok, _ = m.set(th, p, os[0], 1, site='rv')
                 if ok:
                     m.x[th]['mig'] = None
@@ -542,7 +618,7 @@ def gen_a(rng, tier):
                     m.x[th2]['loc'] = 'O'
                     seq.append("po %d %d" % (p, i))
                 elif loc == 'O':
-                    os = oracles(2)
+                    os = oracles(2, th)
                     seq.append("rn %d : %s" % (th, fmt(os)))
                     m.schedule(th, list(os))
                 else:
@@ -596,12 +672,16 @@ def run(tier, seed, replay):
     return vlib.run_differential_property(
         ID, "Properties_C14.v", ["Properties_C14.vo", "Extract_C14.vo"], "c14", "h_c14.c",
         gen, classify, nontrivial, tier, seed, replay=replay, san=True,
-        rule="T: every valid sequence of length<=L of map/unmap over 3 colliding handles, each extended by every get / "
-             "map-with-failing-malloc as last op (these create no new state) (exhaustive) + seeded sequences over 1-3 "
-             "buckets with both in any position; W: every valid sequence of length<=L of "
-             "init/set/unit_set/unset/get over 2 descriptors, pools B U U and 3 colliding handles (exhaustive) + seeded; "
-             "A: seeded public-API sequences over built-in / ABT_pool_user_def / legacy ABT_pool_def pools; "
-             "S: multi-stream storms (monitor). non-trivial = >=3 ops (or a storm). Distinct = distinct case text.",
+        rule="T: every valid sequence of length<=L of map/unmap over 3 colliding handles, with the composite same-key step "
+             "map(h)-get(h)-unmap(h) on a mapped h, each extended by every get / map-with-failing-malloc (fresh or same key) "
+             "as last op (exhaustive) + seeded sequences over 1-3 buckets with all of these in any position; W: every "
+             "valid sequence of length<=L of init/set/unit_set/unset/get over 2 descriptors, pools B U U and 3 colliding "
+             "handles, create_unit returning a fresh handle, NULL or (user->other-user moves) the handle the work unit already "
+             "has, with succeeding and failing malloc (exhaustive) + seeded (same-handle probability 0/0.15/0.5/1 per case); "
+             "A: seeded public-API sequences over built-in / ABT_pool_user_def / legacy ABT_pool_def pools, ~30% of the cases "
+             "with one fixed handle per work unit (every direct user->user move is a same-handle move), 12% own-handle "
+             "oracles otherwise; S: multi-stream storms, half of the self-migrations keep the handle (monitor). "
+             "non-trivial = >=3 ops (or a storm). Distinct = distinct case text.",
         extra_assumptions=["unit.c and the inline functions of abti_unit.h are exercised both as an ASan+UBSan-instrumented "
                            "white-box copy (own ABTI_global, malloc-failure injection) and through the public API of the "
                            "-O2 library built from the tree under test"])
